@@ -730,6 +730,15 @@ fn macro_forms(res: &mut PartResult) {
                 check(res, concat!(stringify!($mac), "!(name, Unit::Count, String)"), vec![format!("0|{}|dyn.name|Some(\"count\")|dv", $what)]);
                 metrics::$mac!(name_dyn.clone(), val.clone(),);
                 check(res, concat!(stringify!($mac), "!(name, String,)"), vec![format!("0|{}|dyn.name|None|dv", $what)]);
+                // an empty description is a description (it may only be there to carry the unit)
+                metrics::$mac!("lit", "");
+                check(res, concat!(stringify!($mac), "!(\"lit\", \"\")"), vec![format!("0|{}|lit|None|", $what)]);
+                metrics::$mac!("lit", Unit::Bytes, "");
+                check(res, concat!(stringify!($mac), "!(\"lit\", Unit::Bytes, \"\")"), vec![format!("0|{}|lit|Some(\"bytes\")|", $what)]);
+                metrics::$mac!(name_dyn.clone(), Unit::Count, String::new());
+                check(res, concat!(stringify!($mac), "!(name, Unit::Count, String::new())"), vec![format!("0|{}|dyn.name|Some(\"count\")|", $what)]);
+                metrics::$mac!("", "text");
+                check(res, concat!(stringify!($mac), "!(\"\", \"text\")"), vec![format!("0|{}||None|text", $what)]);
             }};
         }
         dforms!(describe_counter, "describe_counter");
